@@ -46,7 +46,7 @@ ASSUMPTIONS = ['bit flips inside complete JSON files are not injected (nothing i
 PROBES = ['restart_with_groups', 'restart_with_links', 'restart_with_joins', 'restart_by_reference', 'restart_relative_paths',
           'double_round_trip', 'second_generation_restart', 'fault_torn_write', 'fault_enospc', 'fault_open', 'fault_close',
           'fault_truncated_read', 'fault_missing_read', 'fault_empty_read', 'save_failed_loudly', 'metadata_unserialisable_filtered',
-          'datetime_component', 'categorical_component', 'multi_key_join', 'session_saved_in_another_directory', 'categorical_jitter']
+          'datetime_component', 'categorical_component', 'multi_key_join', 'session_saved_in_another_directory', 'categorical_jitter', 'two_input_link_with_own_input']
 
 LEAFKINDS = ['ineq', 'range', 'mrange', 'roi', 'roix', 'mask', 'slice', 'elem', 'catroi', 'cat', 'cat2d', 'catmr', 'flood', 'roi3d',
              'roind', 'empty']
@@ -93,7 +93,7 @@ def generate(rng, cfg, guards):
         elif k == 'add_derived':
             ops.append([k, r8(), r8(), rng.pick(sorted(LF.ONE))])
         elif k == 'add_link':
-            ops.append([k, rng.wpick(LINKKINDS), r8(), r8(), r8(), r8(), rng.pick(sorted(LF.ONE)), r8(), rng.pick(sorted(LF.TWO))])
+            ops.append([k, rng.wpick(LINKKINDS), r8(), r8(), r8(), r8(), rng.pick(sorted(LF.ONE)), r8(), rng.pick(sorted(LF.TWO)), rng.chance(0.4)])
         elif k == 'join':
             ops.append([k, r8(), r8(), r8(), r8()])
         elif k == 'new_group':
@@ -344,11 +344,17 @@ def _execute(case, res, tmp, fs):
                     w.nv += 1
                     d.add_component_link(ComponentLink([src], ComponentID('v%d_%d' % (w.generation, w.nv), parent=d), using=LF.ONE[op[3]][0]))
             elif k == 'add_link':
-                _, kind, h1, c1, h2, c2, f1, c3, f2 = op
+                _, kind, h1, c1, h2, c2, f1, c3, f2 = op[:9]
                 d1, d2 = w.pick_data(h1), w.pick_data(h2)
                 if d1 is None or d1 is d2:
                     continue
                 a, b, a2 = w.pick_cid(d1, c1, True), w.pick_cid(d2, c2, True), w.pick_cid(d1, c3, True)
+                if kind == 'multi' and len(op) > 9 and op[9]:
+                    # the second input lives in the dataset of the output (b <- f(d1.a, d2.a2))
+                    own = [c for c in w.cids_of(d2, True) if c is not b]
+                    if own:
+                        a2 = own[c3 % len(own)]
+                        res.probe('two_input_link_with_own_input')
                 fw, bw = LF.ONE[f1]
                 if kind == 'oneway':
                     obj = ComponentLink([a], b, using=fw)
